@@ -49,8 +49,8 @@ R = [
      "theorem:C01_init_block_assert — the children of an InitializationBlock are declarations and substitutions (grammar), for which visit_statement returns the empty predecessor set"),
     (r"control_flow_graph/unique_vars\.rs", r"ensure_unique_variables", r"assert!\(matches!", "invariant", "definition bodies are blocks (see build_basic_blocks)"),
     (r"control_flow_graph/ssa_impl\.rs", r"ensure_phi_argument", r"expected phi statement", "guarded", "only called from update_phi_statements on statements selected by is_phi_statement"),
-    (r"control_flow_graph/ssa_impl\.rs", r"insert_ssa_variables|visit_expression", r"version\(\)\.is_none\(\)", "invariant",
-     "SSA conversion runs once per CFG and visits every statement once (dominator-tree pre-order), so names are unversioned on entry; checked on every real CFG by C14's certificate"),
+    (r"control_flow_graph/ssa_impl\.rs", r"insert_ssa_variables|visit_expression", r"version\(\)\.is_none\(\)", "proved",
+     "theorem:C01_ssa_sites_once — the pre-order walk over the dominator tree converts every statement once (the subtrees of different children are disjoint), so names are unversioned on entry; the walk model reproduces every real SSA dump (C14, L3)"),
     (r"control_flow_graph/ssa_impl\.rs", r"update_declarations", r"", "invariant", "every declared name was entered into the SSA environment by Environment::new / insert_phi_statements"),
     (r"intermediate_representation/declarations\.rs", r"add_declaration", r"assert!", "proved",
      "theorem:C10_injective — after ensure_unique_variables two declarations never share a name"),
